@@ -212,7 +212,7 @@ func (p *PlayerListItem) Decode(c *proto.PacketContext, rd io.Reader) (err error
 						return err
 					}
 					if ok {
-						p.PlayerKey, err = crypto.ReadPlayerKey(c.Protocol, rd)
+						item.PlayerKey, err = crypto.ReadPlayerKey(c.Protocol, rd)
 						if err != nil {
 							return err
 						}
